@@ -13,7 +13,7 @@ use crate::model::Occ;
 use crate::runner::{Ctx, PropDef, Tier};
 use crate::sem;
 
-pub const APIS: usize = 8;
+pub const APIS: usize = 10;
 
 /// Handles 0..2: the searcher, its clone, the clone's clone. Handles 3..4: a
 /// second, different searcher (longer patterns derived from the first list)
@@ -107,6 +107,40 @@ fn exec(case: &Case, h: &Handles, op: &Op) -> Result<String, String> {
                 let v: Vec<String> = items.into_iter().map(|r| format!("{:?}", r.map_err(|e| e.kind()))).collect();
                 format!("stream {:?}", v)
             }
+            // a replace call made from inside the closure of another replace
+            // call on the same thread (re-entrancy)
+            8 if unanch => {
+                let repl: Vec<Vec<u8>> = (0..pats.len()).map(|i| vec![b'#'; i % 3]).collect();
+                let inner_s = &h.s[((op.handle % NH) as usize + 1) % 3];
+                let inner_pats = &h.pats[0];
+                let inner_repl: Vec<Vec<u8>> = (0..inner_pats.len()).map(|i| vec![b'+'; 1 + i % 2]).collect();
+                let mut dst = Vec::new();
+                let mut inner_results: Vec<Vec<u8>> = Vec::new();
+                s.replace_all_with_bytes(hay, &mut dst, |m, bytes, dst| {
+                    // nested call on another handle while the outer one is in progress
+                    if let Ok(v) = inner_s.replace_all_bytes(bytes, &inner_repl) {
+                        inner_results.push(v);
+                    }
+                    dst.extend_from_slice(&repl[m.pattern().as_usize()]);
+                    true
+                })
+                .map_err(e)?;
+                format!("nested-replace {:?} inner {:?}", dst, inner_results)
+            }
+            // replace_with whose closure stops at the second match
+            9 if unanch => {
+                let mut dst = Vec::new();
+                let mut calls = 0usize;
+                s.replace_all_with_bytes(hay, &mut dst, |m, _, dst| {
+                    dst.push(b'<');
+                    dst.extend_from_slice(m.pattern().as_usize().to_string().as_bytes());
+                    dst.push(b'>');
+                    calls += 1;
+                    calls < 2
+                })
+                .map_err(e)?;
+                format!("replace-stop {:?}", dst)
+            }
             7 => match &h.p[(op.handle % NH) as usize] {
                 Some(ps) => format!("packed {:?}", ps.find_iter(hay).take(hay.len() + 3).map(to_m).collect::<Vec<_>>()),
                 None => format!("find {:?}", s.try_find(input(hay, span, anchored, false)).map_err(e)?),
@@ -128,7 +162,41 @@ fn model_result(case: &Case, h: &Handles, op: &Op) -> Option<String> {
     let anchored = eff_anchored(case, op);
     let std_kind = case.cfg.mk == Mk::Standard;
     let nonempty = !pats.is_empty() && pats.iter().all(|p| !p.is_empty());
+    let unanch = case.cfg.supports_anchored(false);
     match op.api as usize % APIS {
+        8 if unanch => {
+            let repl: Vec<Vec<u8>> = (0..pats.len()).map(|i| vec![b'#'; i % 3]).collect();
+            let ms = occ.iter(case.cfg.mk, 0, op.haystack.len(), false);
+            let outer = crate::model::replace_all_bytes(&op.haystack, &ms, &repl, None);
+            let inner_pats = &h.pats[0];
+            let inner_repl: Vec<Vec<u8>> = (0..inner_pats.len()).map(|i| vec![b'+'; 1 + i % 2]).collect();
+            let inner: Vec<Vec<u8>> = ms
+                .iter()
+                .map(|m| {
+                    let b = &op.haystack[m.start..m.end];
+                    let o = Occ::new(inner_pats, b, case.cfg.casei);
+                    crate::model::replace_all_bytes(b, &o.iter(case.cfg.mk, 0, b.len(), false), &inner_repl, None)
+                })
+                .collect();
+            Some(format!("nested-replace {:?} inner {:?}", outer, inner))
+        }
+        9 if unanch => {
+            let ms = occ.iter(case.cfg.mk, 0, op.haystack.len(), false);
+            let mut out = Vec::new();
+            let mut last = 0;
+            for (k, m) in ms.iter().enumerate() {
+                out.extend_from_slice(&op.haystack[last..m.start]);
+                last = m.end;
+                out.push(b'<');
+                out.extend_from_slice(m.pat.to_string().as_bytes());
+                out.push(b'>');
+                if k == 1 {
+                    break;
+                }
+            }
+            out.extend_from_slice(&op.haystack[last..]);
+            Some(format!("replace-stop {:?}", out))
+        }
         1 | 5 => None,
         6 if std_kind && nonempty && case.cfg.supports_anchored(false) => {
             let v: Vec<String> = occ
@@ -166,6 +234,40 @@ fn c17_check(case: &Case, ctx: &mut Ctx) -> Result<(), String> {
     let s3 = Searcher::build(&case.cfg, &pats2)?;
     let s4 = clone_searcher(&s3);
     let h = Handles { s: [s0, s1, s2, s3, s4], p: [p0, p1, p2, None, None], pats: [case.patterns.clone(), pats2] };
+    // --- build independence: two pattern lists with the same number of
+    //     patterns and the same concatenation (one separator-like byte moved
+    //     across a pattern boundary), built back to back on this thread, must
+    //     each behave like a fresh build (model comparison)
+    if case.patterns.len() >= 2 {
+        let i = case.threads % (case.patterns.len() - 1);
+        for t in [0xFFu8, 0x00, b',', b'\n'] {
+            let mut a = case.patterns.clone();
+            let mut b = case.patterns.clone();
+            a[i].push(t);
+            b[i + 1].insert(0, t);
+            let mut probe = a[i].clone();
+            probe.extend_from_slice(&a[i + 1]);
+            probe.extend_from_slice(&case.patterns[0]);
+            for (name, list) in [("first", &a), ("second", &b), ("first again", &a)] {
+                let s = Searcher::build(&case.cfg, list)?;
+                if s.patterns_len() != list.len() || (s.max_pattern_len() != list.iter().map(|p| p.len()).max().unwrap_or(0)) {
+                    return Err(format!("back-to-back builds ({} list, separator {:#04x}): metadata does not match the list that was built", name, t));
+                }
+                let anchored = !case.cfg.supports_anchored(false);
+                let occ = Occ::new(list, &probe, case.cfg.casei);
+                let want = occ.iter(case.cfg.mk, 0, probe.len(), anchored);
+                let got = guard(|| s.try_find_iter(input(&probe, (0, probe.len()), anchored, false))).map_err(|p| format!("back-to-back builds: panic {}", p))?.map_err(|e| e.to_string())?;
+                if got != want {
+                    return Err(format!(
+                        "back-to-back builds ({} list, separator {:#04x} moved across the boundary after pattern {}): expected {:?}, got {:?} - the searcher does not correspond to the list it was built from",
+                        name, t, i, want, got
+                    ));
+                }
+            }
+        }
+        ctx.class("back-to-back-builds-checked");
+    }
+
     // --- sequential history, compared with the model
     let mut results: Vec<String> = Vec::with_capacity(case.ops.len());
     for (i, op) in case.ops.iter().enumerate() {
@@ -451,8 +553,8 @@ fn c17_extra(tier: Tier, _seed: u64, ctx: &mut Ctx) -> Result<bool, crate::runne
 
 pub const C17: PropDef = PropDef {
     id: "C17",
-    rule: "generated histories of 2..10 operations (find, earliest, find_iter, overlapping steps, is_match, replace_all_bytes, stream search, packed find_iter) over {searcher, clone, clone of clone, a second searcher with longer patterns derived from the same list, its clone} x generated haystacks/spans/anchoring (stream searches use 1..4-byte reads at the default buffer capacity), all engines and match kinds. \
-Oracle: (1) sequential: every value-defined result equals the reference model; (2) history independence: every operation re-run later, in reverse order and on each handle of the same searcher, returns the identical value; \
+    rule: "generated histories of 2..10 operations (find, earliest, find_iter, overlapping steps, is_match, replace_all_bytes, stream search, packed find_iter, a replace call issued from inside another replace call's closure, replace_all_with that stops at the second match) over {searcher, clone, clone of clone, a second searcher with longer patterns derived from the same list, its clone} x generated haystacks/spans/anchoring (stream searches use 1..4-byte reads at the default buffer capacity), all engines and match kinds. \
+Before the history, two pattern lists with equal count and equal concatenation (a separator-like byte 0xFF/0x00/','/newline moved across one pattern boundary) are built back to back and each must behave like the list it was built from. Oracle: (1) sequential: every value-defined result equals the reference model; (2) history independence: every operation re-run later, in reverse order and on each handle of the same searcher, returns the identical value; \
 (3) concurrency: 2..8 threads (released together by a barrier) run rotated slices of the history three times on the shared searchers and clones, every result must equal the sequential one; an in-flight counter measures whether searches actually overlapped. \
 A contention sub-run hammers one shared searcher per (5 engines x 3 match kinds x 10 adversarial deep-failure-chain pattern sets incl. one whose states carry 40 matches; overlapping stepping for the standard kind, the iterator otherwise) from 8 barrier-released threads, each repeating its own chain-riding search 1500 (thorough 6000) times against the sequential model result. A keyword scan of /repo/src for interior mutability outside the verification hooks is recorded as context only (it never produces a violation). \
 Non-trivial = at least two searches were in flight at the same time and the history uses at least two different handles. Distinct = distinct case fingerprint.",
